@@ -219,7 +219,8 @@ func filterOpOnDataType(rec []byte, qValDte *DtypeEnclosure, fop FilterOperator,
 				return filterOpOnRecNumberEncType(rec, qValDte, fop, isRegexSearch, recDte)
 			}
 
-			return false, nil
+			// a value that is not a string is not equal to the string: = does not match, != does
+			return fop == NotEquals, nil
 		}
 		return fopOnString(rec, qValDte, fop, isRegexSearch, isCaseInsensitive)
 	case SS_DT_BOOL:
